@@ -460,11 +460,18 @@ namespace sim
 			result_t& operator=(result_t const&) = delete;
 		};
 
+		void wait_for_front();
+
 		io_context* m_ios;
 		asio::high_resolution_timer m_timer;
 		using queue_t = aux::noexcept_movable<std::vector<result_t>>;
 
 		queue_t m_queue;
+
+		// the timer completion holds a weak reference to this. Once the timer has
+		// fired, its completion can no longer be cancelled; if the resolver is
+		// destroyed before it runs, it must not touch the object
+		std::shared_ptr<int> m_alive;
 	};
 
 	struct SIMULATOR_DECL udp
